@@ -56,7 +56,7 @@ long ticksAfter(const sess::History& h, long long tNs, long upToTicks) {
 
 void checkTime(const sess::History& h, const uci::Model& m, const Scenario& sc, vf::Result& res) {
     const long long clockCost = sc.knobInt("clock_cost_ns", 1000);
-    const long long slackNs = 400 * clockCost + 2000000; // clock reads between wake-up and the bestmove line, ms rounding
+    const long long slackNs = 400 * clockCost + 2000000 + sc.knobInt("late_max_ns", 0); // clock reads between wake-up and the bestmove line, ms rounding, late timers
     const long long injected = res.counters["fault_clock_jump_ns"];
     for (size_t k = 0; k < m.gos.size(); k++) {
         const uci::GoRec& g = m.gos[k];
@@ -219,6 +219,22 @@ void genC06(uint64_t seed, int tier, Scenario& sc) {
     pushSend(sc, "quit");
 }
 
+// C06J: the same workload with clock faults (forward jumps at random sim steps, late timers, stalled threads).
+// The injected jump is recorded and added to every allowance (section 3.3(3)); kept separate from the
+// fault-free class so that the relaxation hides no ordinary bug.
+void genC06J(uint64_t seed, int tier, Scenario& sc) {
+    genC06(seed, tier, sc);
+    sc.cls = "C06J";
+    Rng rf(seed, 6);
+    int nj = (int)rf.range(1, 3);
+    for (int i = 0; i < nj; i++)
+        sc.faults.push_back("jump " + std::to_string(rf.logRange(10, 20000)) + " " + std::to_string(rf.logRange(1000, 2000000000LL)));
+    if (rf.chance(0.5)) { sc.setD("late_p", 0.3); sc.set("late_max_ns", rf.logRange(1000, 20000000)); }
+    if (rf.chance(0.5)) sc.faults.push_back("freeze " + std::to_string(rf.logRange(10, 20000)) + " " + std::to_string(rf.below(4)) + " " + std::to_string(rf.logRange(10, 3000)));
+    if (rf.chance(0.3)) sc.setD("spurious_p", 0.01);
+}
+
 vf::ClassRegistrar regC06({"C06", "C06", "session", genC06, runC06});
+vf::ClassRegistrar regC06J({"C06J", "C06", "session", genC06J, runC06});
 
 } // namespace
